@@ -88,8 +88,6 @@ def run_tool(args, cwd, seconds=30):
         err = 'exit-%s' % (e.code,)
     except Exception as e:   # noqa: B902 - whatever the tool raises is an observation
         err = 'exception-%s' % type(e).__name__
-        if os.environ.get('E06_DEBUG'):
-            print('DEBUG', type(e).__name__, e, file=__import__('sys').stderr)
     finally:
         os.chdir(old)
     return out.getvalue(), err
@@ -316,6 +314,12 @@ class Prog:
             self.marks.append(self.here())
             self.emit(0xFB, 0x76)                                                             # EI ; HALT
             self.features.add('halt')
+        if 'int-edge' in self.opts:
+            self.emit(0xFB, 0x00, 0x00, 0x00)                                                 # EI ; NOP ; NOP ; NOP
+            self.features.add('int-edge')
+        if 'halt-stuck' in self.opts:
+            self.emit(0x3C, 0xF3, 0x76)                                                       # INC A ; DI ; HALT (for ever)
+            self.features.add('halt-stuck')
         while len(self.code) < n:
             self.marks.append(self.here())
             getattr(self, 'f_' + r.choice(names))()
@@ -346,7 +350,7 @@ def num(rnd, v):
 
 def plan_case(rnd, idx, tier):
     """-> plan dict: the program, the memory layout and the state the run is meant to start from."""
-    p = {'idx': idx}
+    p = {'idx': idx, 'tier': tier}
     kind = rnd.choice(('z80', 'z80', 'szx', 'szx', 'sna', 'bin', 'bin', 'blank'))
     is128 = 0 if kind == 'bin' else rnd.randrange(2)
     p['kind'], p['is128'] = kind, is128
@@ -362,12 +366,12 @@ def plan_case(rnd, idx, tier):
     ints = (not cmio) and rnd.random() < 0.6
     # ROM: a 48K run may patch in a ROM file (Base pattern with EI ; RET at 0x38); otherwise the machine's own ROM, which the
     # specification does not contain (realrom: nothing is executed or read below 0x4000)
-    userom = (not is128) and rnd.random() < 0.6
+    userom = rnd.random() < (0.06 if is128 else 0.6)       # (on 128K the option turns out to be ignored: e06.CANDIDATES)
     p['userom'] = int(userom)
     realrom = not userom
     if defaults and realrom:
         ints = False                  # IM 1 -> 0x38
-    im = 2 if (realrom or rnd.random() < 0.6) else rnd.choice((0, 1))
+    im = 2 if (realrom or (rnd.random() < 0.6 and not is128)) else rnd.choice((0, 1))
     # ---- layout
     p['orgopt'] = None
     if window:
@@ -413,6 +417,15 @@ def plan_case(rnd, idx, tier):
     halt = ints and rnd.random() < 0.3
     if halt:
         opts.add('halt-first')
+    # the edge of the INT window (32 T-states of a 48K frame, 36 of a 128K frame): EI ends just before it, the NOPs after it end
+    # on either side of it
+    p['int_edge'] = ints and not halt and rnd.random() < 0.2
+    if p['int_edge']:
+        opts.add('int-edge')
+    # HALT with interrupts off (or IFF = 0 for ever) never ends: only -m / -M end such a run
+    p['halt_stuck'] = (not ints) and p['vlevel'] > 0 and rnd.random() < 0.07
+    if p['halt_stuck']:
+        opts.add('halt-stuck')
     weights = dict(WEIGHTS)
     if is128:
         weights['page'] = 4
@@ -452,6 +465,9 @@ def plan_case(rnd, idx, tier):
         regs[IM] = im
         regs[IFF] = 1 if (ints and rnd.random() < 0.7) else rnd.randrange(2)
         regs[T] = frame - rnd.choice((4, 12, 24, 40, 80, 200, 400)) if (ints or rnd.random() < 0.3) else rnd.randrange(frame)
+        if p['int_edge']:
+            regs[IFF] = 0
+            regs[T] = rnd.choice((28, 28, 28, 32, 32, 32, 24, 27, 29, 31, 33, 35, 36, rnd.randrange(20, 37))) - 4      # EI ends at frame position 20..36: the NOP after it ends at the edge (32 / 36)
         regs[MEMPTR] = rnd.randrange(65536)
         hw['border'] = rnd.randrange(8)
         hw['fe'] = rnd.randrange(256)
@@ -936,10 +952,12 @@ def choose_limits(rnd, p, probe):
     """probe: [(pc, t)] of the first PROBE instructions, t0 -> op fields stop / maxops / maxt (+ soft)"""
     n = len(probe)
     t0 = probe[0][1]
-    cap = min(n - 1, 40 if p['kind'] == 'blank' else 220)
+    cap = min(n - 1, 40 if p['kind'] == 'blank' else 220 if p.get('tier') == 'thorough' else 110)
     mode = rnd.choice(('addr', 'addr', 'ops', 'tstates', 'addr+ops', 'addr+tstates', 'ops+tstates', 'all', 'same', 'same-ops-t', 'start=stop'))
     if p['vlevel'] == 0 and rnd.random() < 0.4:
         mode = 'addr'
+    if p.get('halt_stuck'):
+        mode = rnd.choice(('ops', 'tstates', 'ops+tstates', 'same-ops-t'))
     if 'block-repeat' in p['features']:
         mode = 'addr'                  # a limit could end the run inside LDIR / LDDR / CPIR (flag bits 3 and 5 are not specified there)
     first = {}
@@ -998,6 +1016,8 @@ def choose_limits(rnd, p, probe):
             maxops = rnd.randrange(1, cap + 1)
     if stop < 0 and not maxops and not maxt:
         maxops = rnd.randrange(1, cap + 1)
+    if stop == probe[0][0]:
+        soft = 'start-equals-stop'       # also when the program comes back to its first instruction
     return stop, maxops, maxt, soft, mode
 
 
@@ -1133,6 +1153,8 @@ def finish_case(rnd, p, cwd):
     st7 = [o['v'] for o in p['op']['state'] if o['n'] == '7ffd']
     if st7 and p['kind'] in ('z80', 'szx', 'sna') and st7[-1] != p['in']['p7']:
         tags.append('state-7ffd-differs-from-file')
+    if p['userom'] and is128:
+        tags.append('rom-file-128k')
     if vlevel == 0 and not maxops and not maxt and {'loop', 'block-repeat'} & set(p['features']):
         tags.append('fast-loops')
     common = dict(case, decimal=decimal, vlevel=vlevel, custom=custom, maddr=maddr, rnames=rnames, mode=mode, probe_len=len(probe), tags=tags,
